@@ -280,10 +280,12 @@ def find_impl_blocks(src, type_name, trait=None):
             hdr = []
             if j is not None and src.is_p(j, '<'):
                 j = src.next_code(skip_generics(src, j))
+            gens = []
             while j is not None and not src.is_p(j, '{'):
                 if src.is_p(j, '<'):
                     e = skip_generics(src, j)
                     hdr.append('<>')
+                    gens.append((len(hdr) - 1, ''.join(src.text[src.toks[j][1]:src.toks[e][2]].split())))
                     j = src.next_code(e)
                     continue
                 hdr.append(src.tok_text(j))
@@ -302,6 +304,14 @@ def find_impl_blocks(src, type_name, trait=None):
                 ty = [h for h in hdr if h != '<>']
             tyname = ty[-1] if ty else None
             trname = tr[-1] if tr else None
+            if trait and '<' in trait and 'for' in hdr:
+                # `trait=From<TokenGenerationError>`: the generic argument of the trait must match as well
+                want_name, want_gen = trait.split('<', 1)
+                want_gen = '<' + ''.join(want_gen.split())
+                got = [g for (pos, g) in gens if pos < hdr.index('for')]
+                if tyname == type_name and trname == want_name and got and got[-1].replace('io::', '').endswith(want_gen.replace('io::', '')[1:]):
+                    yield k, j, src.matches()[j]
+                continue
             if tyname == type_name and trname == trait:
                 yield k, j, src.matches()[j]
 
